@@ -697,7 +697,15 @@ class ZipEnc(Engine):
             if val == wp and seq_pos is None:
                 seq_pos = pos
             pos += cnt
-        if has_right and seq_pos is not None and seq_pos > 10001 and '1' not in head.get('cand', '')[:1]:
+        # the cap only speaks when every candidate in front of the right one fails its check:
+        # `cand=` has one flag per distinct candidate in order of first appearance
+        distinct = []
+        for c in cands + cbs:
+            v = c.split('x', 1)[1] if c.startswith('r') and 'x' in c else c
+            if v not in distinct:
+                distinct.append(v)
+        early_match = has_right and '1' in head.get('cand', '')[:distinct.index(wp)]
+        if has_right and seq_pos is not None and seq_pos > 10001 and not early_match:
             # the right passphrase sits behind more wrong answers than the loop may try (cap 10000)
             return None if e['r'] == 'failed' and e['n'] == '0' else 'retry cap not enforced'
         if head.get('tampered') == '1':
